@@ -135,7 +135,12 @@ async def _image(path: str, delays: List[int], late: int, stop_after: Optional[i
         guard += 1
         if ad._journal is not None:                    # (created lazily by the first wait)
             flags.append((len(log), ad.is_replaying()))
-        res = await ad.wait_for_next_task(running, pending, timeout=tmo)
+        try:
+            res = await ad.wait_for_next_task(running, pending, timeout=tmo)
+        except asyncio.CancelledError:
+            # nobody cancelled this image: the adapter let a cancellation of one of the tasks it waits for escape (or cancelled one itself)
+            log.append("?adapter-raised-CancelledError")
+            break
         running = running + list(res.started)
         pending = []
         if res.completed is None:
